@@ -372,5 +372,7 @@ def run(ctx: Ctx) -> None:
     ctx.rule('R18.3', 'Metropolis step uses log-likelihoods of old/new error at one rate; proposal is a '
                       'single-qubit Pauli of non-zero probability', floor=3)
     ctx.trust('numpy semantics of logical_and/logical_not/==, sum, prod, log, exp on arrays')
-    _r181_182(ctx)
-    _r183(ctx)
+    with ctx.part():
+        _r181_182(ctx)
+    with ctx.part():
+        _r183(ctx)
